@@ -31,6 +31,7 @@ import os
 from typing import TYPE_CHECKING, TypedDict
 
 from .diff_tree import tree_changes
+from .errors import CommitError
 from .file import GitFile
 from .index import (
     IndexEntry,
@@ -349,19 +350,48 @@ class Stash:
         if message is None:
             message = b"A stash on " + self._repo.head()
 
-        # TODO(jelmer): Just pass parents into do_commit()?
-        self._repo.refs[self._ref] = self._repo.head()
-
+        # Create the stash commit without touching the ref, then move the ref
+        # from the previous stash (if any) to it in one step. Pointing the
+        # ref at HEAD first to get the parents right would leave it, for a
+        # while, at a value that is neither the previous nor the new stash.
         cid: ObjectID = self._repo.get_worktree().commit(
-            ref=self._ref,
+            ref=None,
             tree=stash_tree_id,
             message=message,
-            merge_heads=[index_commit_id],
+            merge_heads=[self._repo.head(), index_commit_id],
             no_verify=True,
             sign=False,
             config=config,
             **commit_kwargs,
         )
+        stash_commit = self._repo[cid]
+        assert isinstance(stash_commit, Commit)
+        try:
+            previous: ObjectID | None = self._repo.refs[self._ref]
+        except KeyError:
+            previous = None
+        log_message = b"commit: " + message
+        if previous is None:
+            ok = self._repo.refs.add_if_new(
+                self._ref,
+                cid,
+                message=log_message,
+                committer=stash_commit.committer,
+                timestamp=stash_commit.commit_time,
+                timezone=stash_commit.commit_timezone,
+            )
+        else:
+            ok = self._repo.refs.set_if_equals(
+                self._ref,
+                previous,
+                cid,
+                message=log_message,
+                committer=stash_commit.committer,
+                timestamp=stash_commit.commit_time,
+                timezone=stash_commit.commit_timezone,
+            )
+        if not ok:
+            raise CommitError(f"{self._ref!r} changed during stash")
 
         # Reset working tree and index to HEAD to match git's behavior
         # Use update_working_tree to reset from stash tree to HEAD tree
